@@ -239,6 +239,9 @@ func Drive(p Prop, o DriverOpts) int {
 
 	// write replay files
 	replayDir := filepath.Join(o.Root, "replays", id)
+	if o.Only < 0 {
+		_ = os.RemoveAll(replayDir) // witnesses of earlier runs are stale
+	}
 	var replayPaths []string
 	if len(unknown) > 0 {
 		_ = os.MkdirAll(replayDir, 0o755)
